@@ -432,7 +432,7 @@ func (e *env) newWorld() bool {
 			}
 			// capacities whose 135 % no longer fits 64 bits (the limit is then judged in big
 			// integers; a limit above 2^63-1 means no non-negative report can exceed it)
-			if e.rng.Intn(3) == 0 {
+			if e.rng.Intn(3) == 0 || i == 2 { // the third device of every world always (the floor must not depend on the seed)
 				switch e.rng.Intn(6) {
 				case 0:
 					capacity = maxCap
